@@ -445,8 +445,11 @@ def run(repo: Repo, rep):
     r4_dependent_product(repo, rep)
     from .c02 import r3_per_row_loops  # stale per-row state returns points sampled for another parameter row
     r3_per_row_loops(repo, rep)
-    from .c05 import r1_truth_tables  # the membership formulas the implication targets must be the set algebra
+    from .c05 import r1_truth_tables, r4_cramer  # the membership formulas the implication targets must be the set algebra; rejection relies on the primitives' barycentric solve
     r1_truth_tables(repo, rep)
+    r4_cramer(repo, rep)
+    from .c02 import r9_motion_params  # a point moved with another row's motion lies in another row's domain
+    r9_motion_params(repo, rep)
 
 
 _H = "src/torchphysics/problem/domains/domainoperations/sampler_helper.py"
